@@ -188,7 +188,7 @@ def run(tier, replay):
         tv_done = tv_acc = tv_states = 0
         binding_selftest = "not run"
         tvjobs = [(c, res) for c, res in zip(cases, results)
-                  if c["nfiles"] <= 5 and not c.get("interim") and min(c["lines"]) > 0 and 0 < len(res.get("trace") or []) < 400]
+                  if c["nfiles"] <= 5 and not c.get("interim") and not c.get("broken") and min(c["lines"]) > 0 and 0 < len(res.get("trace") or []) < 400]
         if tvjobs:
             vlib.tlc(wd, "MC_MaprSched", "W.cfg", files={"W.cfg": server_cfg(2, 1, False, prop="")}, timeout=600)   # copies spec/ once
             with ThreadPoolExecutor(max_workers=max(2, vlib.NCPU // 2)) as ex:
